@@ -14,7 +14,7 @@ Definition sEnd (e : res unit) : string := sRes (fun _ => "END") e.
 
 (* the provided Iterator methods of a tag iterator are iterated next(): nth(k) on a fresh iterator is the k-th item of the
    run, None behind a complete run, and the run's panic otherwise; count() is the number of items of a complete run *)
-Definition nth_ks (n : N) : list N := [0; 1; n - 1; n; n + 1].
+Definition nth_ks (n : N) : list N := [0; 1; n - 1; n; n + 1; n + 2; n + 3; n + 7].
 Definition lines_iter_nth (h : hkind) (items : list dref) (e : res unit) : list string :=
   (map (fun k => line "tags_nth" (sN k ++ " " ++ match nth_error items (N.to_nat k) with
                                                   | Some t => "VAL " ++ sDref h t
